@@ -35,6 +35,10 @@ type instructionType struct {
 	// instruction.
 	immediate immType
 
+	// uimm marks instructions which encode a 5 bit unsigned immediate value
+	// in place of rs1 register number (CSR instructions with immediate).
+	uimm bool
+
 	// instrType is set of instruction types of an opcode.
 	instrType model.Type
 
